@@ -508,6 +508,22 @@ def coq_bytes(bs):
 def cargo_build(ctx, crate, profile="dev", hooks=True, features=None, extra_rustflags="", bin=None, timeout=3000):
     """Build harness/<crate> against /repo (path deps) and return the binary path."""
     cdir = os.path.join(ROOT, "harness", crate)
+    alt = ""
+    if os.path.realpath(REPO) != "/repo":
+        # private scratch worktree (mutation testing): copy the crate with its path deps redirected
+        alt = hashlib.sha1(os.path.realpath(REPO).encode()).hexdigest()[:8]
+        adir = os.path.join(BUILD, "alt-" + alt, crate)
+        if os.path.exists(adir):
+            shutil.rmtree(adir)
+        shutil.copytree(cdir, adir, ignore=shutil.ignore_patterns("target", "Cargo.lock"))
+        for d, _, fs in os.walk(adir):
+            for fn in fs:
+                if fn.endswith((".toml", ".rs")):
+                    fp = os.path.join(d, fn)
+                    t = open(fp).read()
+                    if "/repo/" in t:
+                        open(fp, "w").write(t.replace("/repo/", os.path.realpath(REPO) + "/"))
+        cdir = adir
     lock_src = os.path.join(REPO, "Cargo.lock")
     lock_dst = os.path.join(cdir, "Cargo.lock")
     if not os.path.exists(lock_dst):
@@ -519,6 +535,8 @@ def cargo_build(ctx, crate, profile="dev", hooks=True, features=None, extra_rust
         flags += extra_rustflags.split()
     # one target dir per (hooks, rustflags) so switching does not thrash the cache
     tdir = TARGET + ("-" + hashlib.sha1(" ".join(flags).encode()).hexdigest()[:6] if extra_rustflags else "")
+    if alt:
+        tdir = os.path.join(BUILD, "alt-" + alt, "target")
     cmd = ["cargo", "build", "--offline", "--quiet"]
     if profile == "release":
         cmd.append("--release")
@@ -529,7 +547,7 @@ def cargo_build(ctx, crate, profile="dev", hooks=True, features=None, extra_rust
     if bin:
         cmd += ["--bin", bin]
     t = time.time()
-    with Lock("cargo"):
+    with Lock("cargo" + alt):
         rc, out = sh(cmd, cwd=cdir, timeout=timeout,
                      env={"CARGO_TARGET_DIR": tdir, "RUSTFLAGS": " ".join(flags), "CARGO_NET_OFFLINE": "true"})
     pdir = {"dev": "debug", "release": "release"}.get(profile, profile)
